@@ -8,7 +8,7 @@ PROPS["C14"] = {
             "choices, explicit and propagated (TakeFrom) arguments, optionals, lists with separators; syntax.Instantiate vs model (names with suffixes, order after sort+Rearrange, "
             "trees, inputs); c14.tm: the same as .tm text (%flag with defaults, by-name propagation, omitted arguments filled from defaults or same-named parameters, arguments in "
             "shuffled order; in half of the grammars a %lookahead flag tested without being declared, given explicitly at some references and propagated through entry points, plus a quarter with unstructured uses that PropagateLookaheads must reject) through compiler.Compile (resolveRef, sortArgs, PropagateLookaheads, Instantiate, Expand): grammar.Parser.Rules; "
-            "oracle: every instance (identified by its name) against the exhaustive semantic specialisation of its template under its valuation, all words up to length 3-5",
+            "oracle: every instance (identified by its name) against the exhaustive semantic specialisation of its template under its valuation, all words up to length 3-5; c14.tm declares half of the plain flags inline in the nonterminal headers (one declaration per nonterminal, same name: values travel by NAME), and a grammar whose references provide every parameter but is rejected as 'uninitialized parameters' is a violation",
     "modelled": "syntax/templates.go: Instantiate (entry points, doSet for parameterless nonterminals, instance worklist, names + suffix, sort by (nonterminal, suffix), Rearrange, group), "
                 "resolveInstance / instance.resolve / allocate (signature in argument order, arguments sorted by parameter), check (short-circuit And/Or, Fatal flag), doExpr for every kind "
                 "(conditional filtering under Choice, lone conditional -> Empty, Empty dropped from sequences, Choice/Optional simplification)",
